@@ -183,6 +183,7 @@ package server
 //@ props C12
 //@ requires client != nil && client.queueStore != nil
 //@ modifies heap, ghost(client.$nout), ghost(client.$lastOut)
+//@ preserves all(client.*), all(ClientOptions.*), all(packetIDLimiter.cond), all(packetIDLimiter.lockedPid), all(packetIDLimiter.limit), all(sync.Cond.L)
 //@ loop 1 invariant len(ids) >= len(elems) - (rangeindex + 1)
 //@ call MessageToPublish#1 witness orig = at(iter, msg.MessageExpiry)
 //@ call MessageToPublish#1 witness waited = now - v.At
@@ -202,6 +203,7 @@ package server
 //@ requires [C03] client != nil && client.opts != nil && client.queueStore != nil && limFixed(client.pl)
 //@ monitor client.pl.cond.L protects client.pl.used, client.pl.freePid, client.pl.exit, elems(client.pl.lockedPid.vals) with invariant limOK(client.pl)
 //@ modifies heap, ghost(client.$nout), ghost(client.$lastOut)
+//@ preserves all(client.*), all(ClientOptions.*), all(packetIDLimiter.cond), all(packetIDLimiter.lockedPid), all(packetIDLimiter.limit), all(sync.Cond.L)
 //@ loop 1 invariant client != nil && client.pl == old(client.pl) && limFixed(client.pl) && limOK(client.pl) && -1 <= $k && $k < len(elems)
 //@ loop 1 invariant forall i int :: 0 <= i && i < len(elems) ==> elems[i] != nil && ((elems[i].MessageWithID.(type *queue.Publish) && elems[i].MessageWithID.(*queue.Publish) != nil && elems[i].MessageWithID.(*queue.Publish).Message != nil) || (elems[i].MessageWithID.(type *queue.Pubrel) && elems[i].MessageWithID.(*queue.Pubrel) != nil))
 //@ call client.write#1 assert [C03] locked(client.pl, id) && packets.(type *packets.Publish) && packets.(*packets.Publish).Dup && packets.(*packets.Publish).PacketID == id
@@ -278,3 +280,18 @@ package server
 //@ call client.writePacket#1 assert [C13] packet.(type *packets.Publish) && !(client.version == 5 && client.opts.ClientTopicAliasMax > 0) ==> called(TopicAliasManager.Check#1) == at(iter1, called(TopicAliasManager.Check#1))
 //@ call client.writePacket#1 assert [C13] packet.(type *packets.Publish) && client.version == 5 && client.opts.ClientTopicAliasMax > 0 && ok ==> len(p.TopicName) == 0 && p.Properties.TopicAlias != nil && *p.Properties.TopicAlias == alias
 //@ call client.writePacket#1 assert [C13] packet.(type *packets.Publish) && client.version == 5 && client.opts.ClientTopicAliasMax > 0 && !ok && alias != 0 ==> p.Properties.TopicAlias != nil && *p.Properties.TopicAlias == alias
+
+// C03 — the delivery loop of a connection (client.pollMessageHandler): the in-flight entries of a resumed session
+// are replayed until the queue reports none are left, and only then new messages are polled; every round asks the
+// limiter for at most min(100, max_inflight) identifiers, hands exactly those to the queue read, and gives back
+// exactly the identifiers the read did not use.
+//@ func (*client).pollMessageHandler
+//@ props C03
+//@ requires [C03] client != nil && client.opts != nil && client.queueStore != nil && limFixed(client.pl)
+//@ modifies heap, ghost(client.$nout), ghost(client.$lastOut)
+//@ waive panic
+//@ loop 1 invariant client != nil && client == old(client) && client.opts != nil && client.queueStore != nil && client.pl == old(client.pl) && limFixed(client.pl) && called(packetIDLimiter.pollPacketIDs#1) == 0 && called(client.pollNewMessages#1) == 0
+//@ loop 2 invariant client != nil && client == old(client) && client.opts != nil && client.queueStore != nil && client.pl == old(client.pl) && limFixed(client.pl) && !cont
+//@ call packetIDLimiter.pollPacketIDs#1 assert [C03] !cont && max == (client.opts.MaxInflight < 100 ? client.opts.MaxInflight : 100) && $arg0 == client.pl
+//@ call client.pollNewMessages#1 assert [C03] !cont && ids != nil && ids == at(client.pollNewMessages#1, ids)
+//@ call packetIDLimiter.batchRelease#1 assert [C03] $arg0 == client.pl
